@@ -354,12 +354,15 @@ class Path:
             self.solver.add(*extra)
             r = self.solver.check()
             if r == z3.unknown:
-                # one retry on a fresh solver with a longer limit (incremental state and load on
+                # retries on a fresh solver with longer limits (incremental state and load on
                 # the machine both make the first attempt flaky)
-                s2 = z3.Solver()
-                s2.set("timeout", self.timeout_ms * 4)
-                s2.add(self.solver.assertions())
-                r = s2.check()
+                for factor in (4, 16):
+                    s2 = z3.Solver()
+                    s2.set("timeout", self.timeout_ms * factor)
+                    s2.add(self.solver.assertions())
+                    r = s2.check()
+                    if r != z3.unknown:
+                        break
                 m = s2.model() if r == z3.sat else None
             else:
                 m = self.solver.model() if r == z3.sat else None
